@@ -152,7 +152,7 @@ def validate_traces(module, cfg, traces, env=None, shards=1, timeout=3600, tag=N
             json.dump(traces[a:b], f, separators=(",", ":"))
         swd = os.path.join(wd, "s%d" % si)
         os.makedirs(swd)
-        cmd = ["java", "-XX:+UseParallelGC", "-Xmx" + heap]
+        cmd = ["java", "-XX:+UseParallelGC", "-XX:ParallelGCThreads=2", "-XX:CICompilerCount=2", "-Xmx" + heap]
         if deque:
             cmd.append("-Dtlc2.tool.queue.IStateQueue=StateDeque")
         cmd += ["-cp", JAR, "tlc2.TLC", "-workers", "1", "-metadir", os.path.join(swd, "meta"),
